@@ -7,8 +7,8 @@ import (
 	"go/types"
 	"strings"
 
-	"github.com/vektah/gqlparser/v2/parser"
 	gast "github.com/vektah/gqlparser/v2/ast"
+	"github.com/vektah/gqlparser/v2/parser"
 	"golang.org/x/tools/go/ssa"
 
 	"verif/internal/an"
